@@ -53,6 +53,20 @@ CLAIMED = {
             'constructors, monotone id append, sign normalisation of arithmetic equalities applied to the normalised polynomial. Decides these necessary clauses; '
             'not that every simplifying constructor normalises argument order.',
             'static analysis: who-may-call + structural lookup/insert pairing rules over the type-checked AST (LibTooling facts)', ''),
+    'C24': ('other',
+            'Static, whole library: every writable variable with static storage duration (namespace scope, static member, function-local static, template '
+            'instantiations) that has a mutating use outside its initialiser must be thread_local, std::atomic, a synchronisation object, mutated only under a '
+            'scoped lock (or through methods that lock a mutex member first), or written only during static initialisation; no call into libc functions with hidden '
+            'process-wide state. Independent instances can interfere only through such state, so this is a necessary condition; races on instance state and '
+            'equality of results are not decided. Known findings: rand()/srand() in proof reduction and random EUF interpolation.',
+            'static analysis: storage-class/type rule + mutating-use dataflow over the type-checked AST of all library units, lock-scope typestate, callee summaries',
+            'mutating-use classification (assignment, ++/--, non-const call, non-const reference/pointer binding or passing, accessor functions followed)'),
+    'C25': ('other',
+            'Static: (1) type/effect rule - every location written by notifyStop/notifyGlobalStop/resetGlobalStop is std::atomic, nothing else is written, the polling '
+            'predicates read exactly those locations; (2) all-paths rule - in every engine function that polls the stop predicates, a path that has observed the stop '
+            'leaves without fabricating a verdict (returns l_Undef / "no conflict", or a variable not assigned after the stop), with summaries for polling callees; '
+            '(3) the undetermined value is carried unchanged to sstat/check/checkSat. Necessary conditions of the property; races with destruction and promptness not decided.',
+            'static analysis: type/effect rule + path-sensitive RETURN-ON-PREDICATE walk over the structured mini-AST', 'stop flags sticky during a check'),
 }
 
 NOT_APPLICABLE = {
